@@ -532,6 +532,7 @@ func SimplifyPath64(path Path64, epsilon float64, isClosedPath bool) Path64 {
 	dsq := make([]float64, l)
 	curr := 0
 
+	var vt verifTicker
 	if isClosedPath {
 		dsq[0] = PerpendicDistFromLineSqr64(path[0], path[high], path[1])
 		dsq[high] = PerpendicDistFromLineSqr64(path[high], path[0], path[high-1])
@@ -545,6 +546,7 @@ func SimplifyPath64(path Path64, epsilon float64, isClosedPath bool) Path64 {
 	}
 
 	for {
+		vt.tick("SimplifyPath64")
 		if dsq[curr] > epsSq {
 			start := curr
 			for {
@@ -613,6 +615,7 @@ func SimplifyPathD(path PathD, epsilon float64, isClosedPath bool) PathD {
 	dsq := make([]float64, length)
 	curr := 0
 
+	var vt verifTicker
 	if isClosedPath {
 		dsq[0] = PerpendicDistFromLineSqrD(path[0], path[high], path[1])
 		dsq[high] = PerpendicDistFromLineSqrD(path[high], path[0], path[high-1])
@@ -626,6 +629,7 @@ func SimplifyPathD(path PathD, epsilon float64, isClosedPath bool) PathD {
 	}
 
 	for {
+		vt.tick("SimplifyPathD")
 		if dsq[curr] > epsSq {
 			start := curr
 			for {
